@@ -1071,7 +1071,111 @@ def _term_collector(ctx, model):
     ctx.ob("P/TermCollector.split_term/exponents-add", ok_acc, loc,
            "exponents of equal bases are added" if ok_acc else
            "split_term does not add the exponents of repeated bases")
-    # map_sum
+    # map_sum: the judge interprets it; the structural reading below stands
+    # only where the judge agrees
+    try:
+        wit_ms = _judge_collect_sum(ms.node, tc)
+    except AnalysisError as e:
+        ctx.extra["judge_unavailable:TermCollector.map_sum"] = str(e)
+        _map_sum_structural(ctx, tc, ms, sum_table)
+        return
+    ctx.ob("P0/TermCollector.map_sum/collect-semantics", not wit_ms,
+           tc.module.loc(ms.node),
+           "map_sum interpreted on sums whose summands split into given (term, "
+           "coefficient) pairs: the result is sum over the distinct terms of "
+           "(sum of their coefficients) * term" if not wit_ms else
+           "TermCollector.map_sum: " + "; ".join(wit_ms[:2]))
+    mark_ms = len(ctx.obs)
+    try:
+        _map_sum_structural(ctx, tc, ms, sum_table)
+    except AnalysisError:
+        if wit_ms:
+            raise
+    if not wit_ms:
+        ctx.withdraw_failures_since(mark_ms, "decided by interpreting map_sum")
+
+
+def _judge_collect_sum(fn, tc):
+    """-> witnesses"""
+    from ..absint import Closure, Interp, Opaque, Poly, Raised, StepBound
+    helpers = {k: v.node for k, v in tc.members.items() if v.kind == "func"}
+    glob = {}
+    for st in tc.module.tree.body:
+        if isinstance(st, ast.FunctionDef):
+            glob[st.name] = Closure(st, glob)
+    X, Y = Poly.sym("X"), Poly.sym("Y")
+    cases = [
+        [(frozenset({(X, 1)}), "a0"), (frozenset({(X, 1)}), "a1"),
+         (frozenset({(Y, 2)}), "a2"), (frozenset(), "a3")],
+        [(frozenset({(X, 1), (Y, 1)}), "a0"), (frozenset({(Y, 1), (X, 1)}), "a1")],
+        [(frozenset(), "a0")],
+        [],
+    ]
+    wit = []
+    for case in cases:
+        kids = [("child", i) for i in range(len(case))]
+
+        class Mp:
+            pass
+        mp = Mp()
+
+        def split(ch):
+            t, c = case[ch[1]]
+            return (t, Poly.sym(c))
+
+        def psum(it_, n_, a, k):
+            tot = Poly()
+            for x in a[0]:
+                tot = tot + Poly.lift(x)
+            return tot
+
+        def pprod(it_, n_, a, k):
+            tot = Poly.const(1)
+            for x in a[0]:
+                tot = tot * Poly.lift(x)
+            return tot
+
+        def attrs(it, node, base, attr):
+            if base is mp:
+                if attr == "split_term":
+                    return split
+                if attr == "rec":
+                    return lambda x, *a, **k: x
+                if attr in helpers and attr != "split_term":
+                    return lambda *a, **k: it.call_function(
+                        helpers[attr], [mp] + list(a), {"__kwargs__": dict(k)})
+                raise AnalysisError(f"mapper attribute {attr}")
+            if base == "NODE" and attr == "children":
+                return tuple(kids)
+            return Opaque(ast.unparse(node))
+        it = Interp(calls={
+            "pymbolic.flattened_sum": psum, "flattened_sum": psum,
+            "pymbolic.flattened_product": pprod, "flattened_product": pprod,
+            "isinstance": lambda it_, n_, a, k: False,
+        }, attrs=attrs, globals_=dict(glob, pymbolic=Opaque("module pymbolic")),
+            decide=lambda it_, n_, v: True, max_steps=50000)
+        want = Poly()
+        for t, c in case:
+            mono = Poly.const(1)
+            for b, e in t:
+                mono = mono * b ** e
+            want = want + Poly.sym(c) * mono
+        try:
+            got = it.call_function(fn, [mp, "NODE"], {})
+        except Raised as r:
+            wit.append(f"{len(case)} summands: raises at line {r.node.lineno}")
+            continue
+        except StepBound:
+            wit.append(f"{len(case)} summands: does not terminate")
+            continue
+        if not isinstance(got, (Poly, int)) or Poly.lift(got) != want:
+            wit.append(f"summands {[(sorted(map(str, t)), c) for t, c in case]}: "
+                       f"{got!r} instead of {want!r}")
+    return wit
+
+
+def _map_sum_structural(ctx, tc, ms, sum_table):
+    from ..summary import summarize as _s   # noqa: F401
     loc = tc.module.loc(ms.node)
     ok_sum = ok_res = False
     for ps in summarize(ms.node, loop_mode="1"):
